@@ -2,6 +2,7 @@
 from collections import deque, OrderedDict
 from datetime import datetime
 import getpass
+from hashlib import md5
 import logging
 import os
 import random
@@ -97,7 +98,12 @@ class _StepRecord:
         temp directory.
         """
         if tmp_dir:
-            scr_dir = tmp_dir
+            # Script file names repeat across steps when workspaces are hashed
+            # (the nickname only digests the parameter combination), so each
+            # record writes into its own directory below the temp directory.
+            scr_dir = os.path.join(
+                tmp_dir, md5(self.name.encode("utf-8")).hexdigest())
+            create_parentdir(scr_dir)
         else:
             scr_dir = self.workspace.value
 
